@@ -2,6 +2,8 @@ import KyupyVerif.Proofs.Transform
 import KyupyVerif.Proofs.TransformElim
 import KyupyVerif.Proofs.TransformStable
 import KyupyVerif.Proofs.TransformSem6
+import KyupyVerif.Proofs.TransformSem7
+import KyupyVerif.Proofs.CopyTrim
 import KyupyVerif.Proofs.Substitute4
 import KyupyVerif.Proofs.SubstituteRes
 import KyupyVerif.Proofs.SubstSem9
@@ -24,6 +26,14 @@ driver raises, or is passed over — patch 06, the current tree).
   - `copy_dump_eq`, `pickle_dump_eq` — the rebuilt circuit has the SAME dump, hence (`copy_pickle_same_function`) the
     same `s_nodes` names and order, the same gate-by-gate function (`evalLine`, `evalCaptures`) and the same anything
     else that is computed from the dump (`SimOps` program, levels, memory map).
+  - **`copy_trims`, `trim_wf_id`, `copy_wfNoTrail_same_function`** (Proofs/CopyTrim.lean; audit finding 5 b2) — `copy()` / pickle round
+    trip of a dump that is well-formed only up to trailing `None`s (`wfNoTrail`: the shape `substitute_sem_general` /
+    `resolve_sem_general` return; `copyNet` does change such a dump): the rebuilt circuit is the dump with the trailing `None`s of
+    every pin list trimmed (`trimNet`); it is `wf`, has the same names, kinds, lines, ports, `s_nodes` (names and order), every node
+    reads / drives the same lines at every pin and exactly the same labellings are consistent.  So resolve → copy / pickle →
+    eliminate chains in theorems: `resolve_sem_general` (result `wfNoTrail`) → `copy_wfNoTrail_same_function` (result `wf`, same
+    function) → `elim_sem` / `elim_sem_converse` / `elim_wf`.  (`elim_*` themselves are stated for `wf` inputs; by the above every
+    `wfNoTrail` dump is one `copy()` away from a `wf` dump with the same function.)
   - `elim_ports` — `eliminate_1to1_forks` keeps the port list with names and order;
     `elim_state_perm` — it keeps the flip-flops and the latches (kind and name) **up to order**; the full statement
     "names AND ORDER of the state elements are kept" is FALSE for the current tree: `elim_state_order_false`
@@ -32,7 +42,8 @@ driver raises, or is passed over — patch 06, the current tree).
     `elim_stable_snames`, `elim_stable_classes` — for the REPAIRED code (`elimForksStableIn` = the same loop followed by
     `_restore_node_order`, patch 03; the harness probes which behaviour the code under test shows) the full statement
     holds: `[n.name for n in c.s_nodes]` is unchanged, names and order, and so is every class of non-fork nodes.
-  - `elim_sem` — the FULL semantic statement for `eliminate_1to1_forks` (`elimForksIn`, the current tree's loop): the model
+  - `elim_sem` — the FORWARD semantic statement for `eliminate_1to1_forks` (`elimForksIn`, the current tree's loop; the converse is
+    `elim_sem_converse` below — audit finding 5: the earlier header called the forward direction "the full statement"): the model
     returns with the result the index maps `Ren` (`elimForksInM`; `elim_maps_same_circuit`: same circuit as `elimForksIn`);
     every consistent labelling of the lines (the gate-by-gate meaning of a netlist, Model/Net.lean / C01) under every
     assignment, restricted and renamed along the maps, is a consistent labelling of the result under the assignment
@@ -40,8 +51,15 @@ driver raises, or is passed over — patch 06, the current tree).
     kind, name, port list and `s_node` status and reaches every non-fork node.  `elim_sem_captures` — the same by `s_nodes`
     position (captured value, name, kind at position `p'` = those at position `sigma … p'` before).  `elim_one_sem` — the
     one-step (splice) lemma.  Extra hypothesis `NNet.forkIns1` (a fork has at most one input pin; without it a fork
-    reading its own output on a second pin would be spliced onto a removed node).  No uniqueness of the labelling is
-    needed; `evalCaptures_eq_capturesOf` connects `capturesOf` with the evaluator of the copy/pickle theorem.
+    reading its own output on a second pin would be spliced onto a removed node).  `evalCaptures_eq_capturesOf` connects `capturesOf` with the evaluator of the copy/pickle theorem.
+    **`elim_sem_converse`** (Proofs/TransformSem7.lean) — the CONVERSE and UNIQUENESS: every consistent labelling of the result (under
+    the permuted assignment) is `relabel` of a consistent labelling of the original (a removed fork is 1:1, the removed line carries
+    the value of the fork's in-line), and two consistent labellings of the original with the same `relabel` agree on every line:
+    `v ↦ relabel r nn' v z` is a bijection between the consistent labellings of `nn` and of `nn'` — no acyclicity needed.  Under
+    acyclicity (C01: the consistent labelling exists and is unique, it is the evaluator's) this gives `evalCaptures` of the result =
+    `evalCaptures` of the original permuted by `sigma` (from `elim_sem_captures`); not restated here.
+    **`elim_wf`** — the result is `wf` with `forkIns1`, so `copy_dump_eq` / `pickle_dump_eq` (`elim_then_copy`), `elim_*` again,
+    `substitute_*` and C01 apply to it: the theorems chain.  (A preserved topological order is not exported.)
     `elim_sem_partial` — the earlier local fact (the out-line of a non-port fork carries the value of its in-line).
   - `substitute_ports` — `substitute` keeps the port list, names and order (all cases, incl. removal of dangling logic);
     `substitute_state_perm` — the state elements of the result up to order, in all cases: those of the host with the
@@ -128,6 +146,19 @@ driver raises, or is passed over — patch 06, the current tree).
     that an earlier substitution removed at an output pin of a cell substituted later takes the value of that cell's
     implementation output: prescribed values of `SubstGenStmt`); (2) the converse.  By induction over the loop (`ResRelG`).
   - `resolve_ports` — `resolve_tlib_cells` (model `resolveCells`) keeps the port list, names and order, for every library.
+  - **Which part of "names and order of state elements are kept" is theorem:** ports — names AND order, for every transformation
+    (`copy_pickle_same_function`, `copy_wfNoTrail_same_function`, `elim_ports`, `substitute_ports`, `resolve_ports`); flip-flops and
+    latches — names and order for copy / pickle; for `eliminate_1to1_forks` and `substitute` only UP TO ORDER (`elim_state_perm`,
+    `substitute_state_perm`; order is kept in the documented case `substitute_snames` and by the repaired loop, `elim_stable_snames`;
+    `elim_state_order_false` is the kernel-checked counterexample = finding D29); for `resolve_tlib_cells` the state elements of the
+    result are those of the original that are no library cells plus the flip-flops/latches of the implementations
+    (`resolve_sem_general`: every such node survives with its name), but `s_nodes` of the UNRESOLVED circuit does not list a
+    library flip-flop whose kind name contains neither `dff` nor `latch` (finding D22) and node removal permutes `s_nodes` (D29): the
+    order after resolve is NOT a theorem and not true of the code; the harness reports both as KNOWN-FINDING.
+  - **Success of `substitute` / `resolve_tlib_cells`** (audit finding 6) is proved in Props/C10Library.lean: `substitute_isSome` (the
+    model returns a circuit under decidable static hypotheses — no hypothesis `… = some h'`), `remove_dangling_isSome` (the fuel
+    suffices), `library_impls_ok` (kernel sweep: all 263 implementation circuits of the five built-in libraries satisfy the
+    implementation-side hypotheses), `library_cell_resolves`, `resolve_step_isSome`, `resolve_isSome_of_genOK`.
 * **Correspondence** (harness/c10.py, differential, not proof): model dumps after copy / pickle round trip /
   `eliminate_1to1_forks` = dumps of the real objects on random circuits (both port styles, permuted node order,
   dictionary order of the forks different from the index order, forks without driver); the index maps of `elimForksInM` =
@@ -178,6 +209,39 @@ theorem copy_pickle_same_function (nn : NNet) (h : nn.wf = true) (t : NNet → N
     · simp [Function.comp, pickle_dump_eq nn h, copy_dump_eq nn h]
     · simp [Function.comp, pickle_dump_eq nn h, copy_dump_eq nn h]
   rw [e]; exact ⟨rfl, rfl, fun _ _ _ => rfl, fun _ => rfl, h⟩
+
+/-- **copy / pickle of a dump that is well-formed only up to trailing `None`s** (`wfNoTrail`: what `substitute` /
+    `resolve_tlib_cells` return, `substitute_sem_general` / `resolve_sem_general`): the rebuilt circuit is the dump with the
+    trailing `None`s of every pin list trimmed (`trimNet`, Proofs/CopyTrim.lean) — audit finding 5 (b2) -/
+theorem copy_trims (nn : NNet) (h : nn.wfNoTrail = true) : copyNet nn = trimNet nn ∧ pickleNet nn = trimNet nn :=
+  have w := WFm.of_wfNoTrail h
+  ⟨rebuild_trim nn w _ (fun i hi => lookup_key_m nn w i hi), rebuild_trim nn w id (fun _ _ => rfl)⟩
+
+/-- for a well-formed dump trimming changes nothing: `copy_trims` contains `copy_dump_eq` / `pickle_dump_eq` -/
+theorem trim_wf_id (nn : NNet) (h : nn.wf = true) : trimNet nn = nn := by
+  rw [← (copy_trims nn (wf_wfNoTrail h)).1]; exact copy_dump_eq nn h
+
+/-- … hence the copy of a `wfNoTrail` dump is WELL-FORMED (`wf`: `elim_*`, `substitute_*`, C01 apply to it), has the same
+    node names, kinds, lines, ports, `s_nodes` (names and order), every node reads and drives the same lines at every pin,
+    and exactly the same labellings are consistent — the same function.  With `substitute_sem_general` /
+    `resolve_sem_general` (result `wfNoTrail`): resolve → copy / pickle → eliminate chains in theorems. -/
+theorem copy_wfNoTrail_same_function (nn : NNet) (h : nn.wfNoTrail = true) (t : NNet → NNet)
+    (ht : t = copyNet ∨ t = pickleNet) :
+    (t nn).wf = true ∧ (t nn).names = nn.names ∧ (t nn).net.lines = nn.net.lines ∧ (t nn).net.io = nn.net.io ∧
+    (t nn).net.nodes.size = nn.net.nodes.size ∧ (t nn).net.sNodes = nn.net.sNodes ∧ (t nn).sNames = nn.sNames ∧
+    (∀ i, ((t nn).net.node i).kind = (nn.net.node i).kind ∧
+      (∀ k, ((t nn).net.node i).inPin k = (nn.net.node i).inPin k) ∧ (∀ k, ((t nn).net.node i).outPin k = (nn.net.node i).outPin k)) ∧
+    (∀ {α : Type} [BEq α] (z : α) (neg : α → α) (prim : String → α → α → α → α → α) (asg : Nat → α) (v : Array α),
+      consistentB (t nn).net z neg prim asg v = consistentB nn.net z neg prim asg v) := by
+  have e : t nn = trimNet nn := by
+    rcases ht with e | e <;> subst e
+    · exact (copy_trims nn h).1
+    · exact (copy_trims nn h).2
+  rw [e]
+  refine ⟨wf_of_WF (trimNet_WF nn (WFm.of_wfNoTrail h)), rfl, rfl, rfl, by simp [trimNet], trimNet_sNodes nn, ?_,
+    fun i => ⟨trimNet_kind nn i, trimNet_inPin nn i, trimNet_outPin nn i⟩,
+    fun z neg prim asg v => trimNet_consistentB nn z neg prim asg v⟩
+  simp only [NNet.sNames, trimNet_sNodes]; rfl
 
 /-- `eliminate_1to1_forks()` (forks visited in any order): port names and their order are kept -/
 theorem elim_ports (nn nn' : NNet) (order : List String) (h : nn.wf = true) (he : elimForksIn skip order nn = some nn') :
@@ -275,6 +339,37 @@ theorem elim_sem_captures {α : Type _} [BEq α] [LawfulBEq α] (nn nn' : NNet) 
   have si := SI.of_wf (WF.of_wf h) hf
   obtain ⟨s, sem⟩ := elimForksInM_sim z neg prim order nn nn' r si he
   exact sim_captures s v _ z (sim_consistentB si s z neg prim sem asg v hc).2 p' hp'
+
+/-- **converse of `elim_sem` and uniqueness** (audit finding 5): the labellings of `nn` and of `nn'` correspond ONE-TO-ONE.
+    (existence) every consistent labelling `v'` of the result under the permuted assignment is `relabel` of a consistent
+    labelling `v` of the original circuit (a removed fork is 1:1, so the value of the removed out-line is that of the
+    fork's in-line); (uniqueness) two consistent labellings of the original with the same `relabel` agree on every line of
+    the original — together with `elim_sem`: `v ↦ relabel r nn' v z` is a bijection between the consistent labellings (as
+    functions on the lines of `nn`) of `nn` under `asg` and those of `nn'` under `reassign r nn nn' asg`. -/
+theorem elim_sem_converse {α : Type _} [BEq α] [LawfulBEq α] (nn nn' : NNet) (r : Ren) (order : List String)
+    (h : nn.wf = true) (hf : nn.forkIns1 = true) (he : elimForksInM skip order nn = some (nn', r))
+    (z : α) (neg : α → α) (prim : String → α → α → α → α → α) (asg : Nat → α) :
+    (∀ v' : Array α, consistentB nn'.net z neg prim (reassign r nn nn' asg) v' = true →
+      ∃ v : Array α, v.size = nn.net.lines.size ∧ consistentB nn.net z neg prim asg v = true ∧
+        (∀ l', l' < nn'.net.lines.size → v.getD (r.line l') z = v'.getD l' z) ∧
+        (v'.size = nn'.net.lines.size → relabel r nn' v z = v')) ∧
+    (∀ v1 v2 : Array α, consistentB nn.net z neg prim asg v1 = true → consistentB nn.net z neg prim asg v2 = true →
+      relabel r nn' v1 z = relabel r nn' v2 z → ∀ l, l < nn.net.lines.size → v1.getD l z = v2.getD l z) := by
+  have si := SI.of_wf (WF.of_wf h) hf
+  obtain ⟨s, _, sq, su⟩ := elimForksInM_simQ z neg prim order nn nn' r si he
+  exact ⟨fun v' hc' => sim_consistentB_conv si s z neg prim sq asg v' hc',
+    fun v1 v2 c1 c2 e => sim_consistentB_unique si s z neg prim su asg v1 v2 c1 c2 e⟩
+
+/-- **the result of `eliminate_1to1_forks` is well-formed** and its forks have one input: the hypotheses of `copy_dump_eq`,
+    `pickle_dump_eq`, `elim_*` (again), `substitute_*` and of C01 hold for the result, so the theorems chain -/
+theorem elim_wf (nn nn' : NNet) (r : Ren) (order : List String) (h : nn.wf = true) (hf : nn.forkIns1 = true)
+    (he : elimForksInM skip order nn = some (nn', r)) : nn'.wf = true ∧ nn'.forkIns1 = true :=
+  elimForksInM_wf order nn nn' r (WF.of_wf h) hf he
+
+/-- chaining: `copy()` / pickle round trip of the result of `eliminate_1to1_forks` is the same dump -/
+theorem elim_then_copy (nn nn' : NNet) (r : Ren) (order : List String) (h : nn.wf = true) (hf : nn.forkIns1 = true)
+    (he : elimForksInM skip order nn = some (nn', r)) : copyNet nn' = nn' ∧ pickleNet nn' = nn' :=
+  ⟨copy_dump_eq nn' (elim_wf nn nn' r order h hf he).1, pickle_dump_eq nn' (elim_wf nn nn' r order h hf he).1⟩
 
 /-- one loop iteration (the splice): the fork's in-line takes the place of the out-line at the reader pin, the fork and
     the out-line are deleted with swap-with-last; `r = stepRen nn i b` -/
@@ -728,6 +823,13 @@ example : ({ exWf with net := { exWf.net with lines := exWf.net.lines.set! 1 ⟨
 /-- a trailing `None` in a pin list is the one thing `copy` does not reproduce (hence part of `wf`) -/
 example : let nn : NNet := { net := { nodes := #[⟨"AND2", [none], []⟩], lines := #[], io := [] }, names := #["g"] }
     nn.wf = false ∧ (copyNet nn).net.nodes.toList.map (·.ins) = [[]] := by decide +kernel
+/-- hypothesis of `copy_trims` / `copy_wfNoTrail_same_function`: the result of `substitute exHostFF 2 exImplFZ` (below) is `wfNoTrail`
+    but not `wf` (the `DFF` has `outs = [line 2, None]`); its copy has `outs = [line 2]` and is `wf` -/
+example : let nn : NNet := { net := { nodes := #[⟨"input", [], [some 0]⟩, ⟨"DFF", [some 0, none], [some 1, none]⟩, ⟨"output", [some 1], []⟩],
+                                      lines := #[⟨0, 0, 1, 0⟩, ⟨1, 0, 2, 0⟩], io := [0, 2] }, names := #["d", "u", "q"] }
+    nn.wfNoTrail = true ∧ nn.wf = false ∧ (copyNet nn).wf = true ∧
+    (copyNet nn).net.nodes.toList.map (fun n => (n.ins, n.outs)) = [([], [some 0]), ([some 0], [some 1]), ([some 1], [])] := by
+  decide +kernel
 /-- hypotheses of `elim_sem_partial`: a consistent labelling of `exWf` exists (the evaluator's), fork 4 is a 1:1 fork -/
 example : consistentB exWf.net false (!·) prim2 (fun j => j == 0) (evalAll exWf.net false (!·) prim2 (fun j => j == 0)) = true ∧
     (exWf.net.node 4).isFork = true ∧ exWf.net.io.contains 4 = false ∧
